@@ -234,7 +234,7 @@ pub fn build_abiding(g: &Genome) -> Built {
         let fallible = if cg.fallible { Some(cg.kind as usize % n_errs) } else { None };
         let is_async = cg.is_async || kind == CompKind::Wrap;
         mw_idx.push(comps.len());
-        comps.push(CompSpec { kind, inputs, fallible, is_async, route: None, fw: fw_of(cg) });
+        comps.push(CompSpec { kind, inputs, fallible, is_async, route: None, fw: fw_of(cg), gens: vec![] });
     }
     // ---- handlers
     let mut h_idx = vec![];
@@ -255,6 +255,7 @@ pub fn build_abiding(g: &Genome) -> Built {
             is_async: cg.is_async,
             route: Some(RouteSpec { methods, path: format!("/h{hi}"), path_param_fields: vec![], bulk: (cg.kind / 5) % 2 == 0 }),
             fw: fw_of(cg),
+            gens: vec![],
         });
     }
     if h_idx.is_empty() {
@@ -266,6 +267,7 @@ pub fn build_abiding(g: &Genome) -> Built {
             is_async: false,
             route: Some(RouteSpec { methods: vec!["GET".into()], path: "/h0".into(), path_param_fields: vec![], bulk: false }),
             fw: vec![],
+            gens: vec![],
         });
     }
     // ---- "hot" clone-if-necessary value: in a third of the applications every middleware and
@@ -295,12 +297,35 @@ pub fn build_abiding(g: &Genome) -> Built {
             }
         }
     }
+    // ---- generic constructors: `fn g<T>(&T) -> G<T>` instantiated with a borrowable type of a
+    // compatible lifecycle (a singleton wrapper only around singletons)
+    for (n_c, c) in comps.iter_mut().enumerate() {
+        if !matches!(c.kind, CompKind::Pre | CompKind::Post | CompKind::Wrap | CompKind::Handler) {
+            continue;
+        }
+        let pickers: Vec<u16> = g.mws.iter().chain(g.handlers.iter()).nth(n_c).map(|cg| cg.inputs.iter().map(|(r, _)| *r).collect()).unwrap_or_default();
+        for raw in pickers.iter().take(2) {
+            if raw % 4 != 0 {
+                continue;
+            }
+            let kind = ((raw / 4) % 3) as u8;
+            let inner = pick(raw / 12, n);
+            let borrowable = matches!(discs[inner], Disc::BorrowOnly | Disc::Copy | Disc::CloneIfNecessary) || types[inner].life == Life::Singleton;
+            let life_ok = kind != 0 || types[inner].life == Life::Singleton;
+            if borrowable && life_ok && !c.gens.contains(&(kind, inner)) {
+                c.gens.push((kind, inner));
+                if c.kind != CompKind::Handler {
+                    used_by_non_handler[inner] = true;
+                }
+            }
+        }
+    }
     // ---- observers
     let mut o_idx = vec![];
     for cg in g.observers.iter().take(3) {
         let inputs = comp_inputs(cg, Consumer::ErrOrObs, &types, &discs, &mut claimed, &mut used_by_non_handler);
         o_idx.push(comps.len());
-        comps.push(CompSpec { kind: CompKind::Observer, inputs, fallible: None, is_async: cg.is_async, route: None, fw: vec![] });
+        comps.push(CompSpec { kind: CompKind::Observer, inputs, fallible: None, is_async: cg.is_async, route: None, fw: vec![], gens: vec![] });
     }
     // ---- one error handler per error type (registered at the root)
     let mut eh_idx = vec![];
@@ -318,13 +343,13 @@ pub fn build_abiding(g: &Genome) -> Built {
             }
         };
         eh_idx.push(comps.len());
-        comps.push(CompSpec { kind: CompKind::ErrHandler { err: e, default: false }, inputs, fallible: None, is_async: e % 2 == 1, route: None, fw: vec![] });
+        comps.push(CompSpec { kind: CompKind::ErrHandler { err: e, default: false }, inputs, fallible: None, is_async: e % 2 == 1, route: None, fw: vec![], gens: vec![] });
     }
     // ---- an error handler for an error type that nothing returns: registered in some *nested*
     // blueprints only, so that those blueprints have error handlers of their own while every real
     // error is still handled by the handlers of the root blueprint
     let extra_eh = comps.len();
-    comps.push(CompSpec { kind: CompKind::ErrHandler { err: n_errs, default: false }, inputs: vec![], fallible: None, is_async: false, route: None, fw: vec![] });
+    comps.push(CompSpec { kind: CompKind::ErrHandler { err: n_errs, default: false }, inputs: vec![], fallible: None, is_async: false, route: None, fw: vec![], gens: vec![] });
     let n_errs = n_errs + 1;
     // ---- overridable types: request-scoped/transient, consumed by handlers only, with no dependants
     let overridable: Vec<usize> = (0..n)
@@ -416,7 +441,7 @@ pub fn build_abiding(g: &Genome) -> Built {
             bp.push(Reg::Comp { idx: h_idx[h] });
         }
     }
-    Built { spec: AppSpec { types, n_errs, comps, bp, note: "abiding".into() }, discs }
+    Built { spec: AppSpec { peel: false, types, n_errs, comps, bp, note: "abiding".into() }, discs }
 }
 
 fn input_genes() -> impl Strategy<Value = Vec<(u16, u8)>> {
@@ -659,6 +684,7 @@ pub fn build_routing(g: &RoutingGenome, k: usize) -> AppSpec {
                 is_async: rg.methods % 2 == 0,
                 route: Some(RouteSpec { methods, path, path_param_fields: vec![], bulk: false }),
                 fw: if rg.methods % 7 == 3 { vec![rg.methods / 7 % 5] } else { vec![] },
+                gens: vec![],
             });
         }
         // a fallback in a blueprint nested *without* its own prefix is documented for method
@@ -669,7 +695,7 @@ pub fn build_routing(g: &RoutingGenome, k: usize) -> AppSpec {
         if sg.fallback && (own_prefix || anc_ok) {
             out.push(Reg::Comp { idx: comps.len() });
             // (framework-provided inputs: often the fallback is the only component asking for one)
-            comps.push(CompSpec { kind: CompKind::Fallback, inputs: vec![], fallible: None, is_async: false, route: None, fw: if sg.prefix_kind % 2 == 0 { vec![sg.prefix_kind / 2 % 5] } else { vec![] } });
+            comps.push(CompSpec { kind: CompKind::Fallback, inputs: vec![], fallible: None, is_async: false, route: None, fw: if sg.prefix_kind % 2 == 0 { vec![sg.prefix_kind / 2 % 5] } else { vec![] }, gens: vec![] });
         }
         if depth < 3 {
             for ch in sg.children.iter().take(3) {
@@ -693,7 +719,7 @@ pub fn build_routing(g: &RoutingGenome, k: usize) -> AppSpec {
         scope(&g.root, true, true, 0, "", 0, &mut comps, &mut taken, &mut nest_counter, &mut bp);
         if g.root_fallback && !g.root.fallback {
             bp.push(Reg::Comp { idx: comps.len() });
-            comps.push(CompSpec { kind: CompKind::Fallback, inputs: vec![], fallible: None, is_async: false, route: None, fw: vec![] });
+            comps.push(CompSpec { kind: CompKind::Fallback, inputs: vec![], fallible: None, is_async: false, route: None, fw: vec![], gens: vec![] });
         }
     } else {
         // all-or-nothing: every route lives under a guarded top-level nest; only a fallback at the root
@@ -727,13 +753,14 @@ pub fn build_routing(g: &RoutingGenome, k: usize) -> AppSpec {
                     is_async: false,
                     route: Some(RouteSpec { methods: vec!["GET".into()], path: format!("/dz{i}"), path_param_fields: vec![], bulk: false }),
                     fw: vec![],
+                    gens: vec![],
                 });
             }
             bp.push(Reg::Nest { prefix: None, domain: Some(d.clone()), bp: regs });
         }
         if g.root_fallback {
             bp.push(Reg::Comp { idx: comps.len() });
-            comps.push(CompSpec { kind: CompKind::Fallback, inputs: vec![], fallible: None, is_async: false, route: None, fw: vec![] });
+            comps.push(CompSpec { kind: CompKind::Fallback, inputs: vec![], fallible: None, is_async: false, route: None, fw: vec![], gens: vec![] });
         }
     }
     if !comps.iter().any(|c| c.kind == CompKind::Handler) {
@@ -745,9 +772,10 @@ pub fn build_routing(g: &RoutingGenome, k: usize) -> AppSpec {
             is_async: false,
             route: Some(RouteSpec { methods: vec!["GET".into()], path: "/".into(), path_param_fields: vec![], bulk: false }),
             fw: vec![],
+            gens: vec![],
         });
     }
-    let mut spec = AppSpec { types: vec![], n_errs: 0, comps, bp, note: if domains.is_empty() { "routing".into() } else { "routing+domains".into() } };
+    let mut spec = AppSpec { peel: false, types: vec![], n_errs: 0, comps, bp, note: if domains.is_empty() { "routing".into() } else { "routing+domains".into() } };
     // The path router (matchit) cannot hold every semantically conflict-free table and its verdict
     // depends on the insertion order: keep only tables it accepts in registration order *and* in
     // sorted order (the two orders the compiler and the generated code use), dropping routes from
@@ -980,6 +1008,19 @@ pub fn plant(base: &AppSpec, rule: usize, raw: u16) -> Option<Planted> {
             spec.types[i].inputs.push((j, Mode::Ref));
             nontrivial = needed.iter().find(|(t, _)| *t == j).is_some_and(|(_, d)| *d >= 2);
             what = format!("T{i} now also needs &T{j}, which needs T{i}: a dependency cycle");
+        }
+        2 if raw % 3 == 0 => {
+            // the same rule through a generic constructor: a singleton wrapper instantiated with a request-scoped type
+            let reqs: Vec<usize> = (0..spec.types.len()).filter(|t| spec.types[*t].life == Life::Request && spec.bp.iter().any(|r| matches!(r, Reg::Ctor { ty, .. } if ty == t))).collect();
+            let sites: Vec<usize> = comps.iter().copied().filter(|c| matches!(spec.comps[*c].kind, CompKind::Handler | CompKind::Pre | CompKind::Post | CompKind::Wrap)).collect();
+            if reqs.is_empty() || sites.is_empty() {
+                return None;
+            }
+            let r = reqs[choose(reqs.len())];
+            let c = sites[(raw as usize / 3) % sites.len()];
+            spec.comps[c].gens.push((0, r));
+            nontrivial = true;
+            what = format!("component x{c} now needs &GS<T{r}>: the generic singleton constructor g_s<T>(&T) instantiated with the request-scoped T{r}");
         }
         2 => {
             let singles: Vec<usize> = needed.iter().map(|(t, _)| *t).filter(|t| spec.types[*t].life == Life::Singleton).collect();
@@ -1351,14 +1392,14 @@ pub fn build_stage_stress(raw: u64) -> AppSpec {
     if with_errors {
         let eh_inputs = if next() % 2 == 0 { vec![(4, Mode::Ref)] } else { vec![(1, Mode::Ref)] };
         bp.push(Reg::Comp { idx: comps.len() });
-        comps.push(CompSpec { kind: CompKind::ErrHandler { err: 0, default: false }, inputs: eh_inputs, fallible: None, is_async: false, route: None, fw: vec![] });
+        comps.push(CompSpec { kind: CompKind::ErrHandler { err: 0, default: false }, inputs: eh_inputs, fallible: None, is_async: false, route: None, fw: vec![], gens: vec![] });
         let obs_inputs = match next() % 3 {
             0 => vec![(4, Mode::Ref)],
             1 => vec![(4, Mode::Ref), (0, Mode::Ref)],
             _ => vec![(2, Mode::Ref)],
         };
         bp.push(Reg::Comp { idx: comps.len() });
-        comps.push(CompSpec { kind: CompKind::Observer, inputs: obs_inputs, fallible: None, is_async: false, route: None, fw: vec![] });
+        comps.push(CompSpec { kind: CompKind::Observer, inputs: obs_inputs, fallible: None, is_async: false, route: None, fw: vec![], gens: vec![] });
     }
     let n_mw = 3 + next() % 5;
     let mut inputs_for = |next: &mut dyn FnMut() -> usize| {
@@ -1392,7 +1433,7 @@ pub fn build_stage_stress(raw: u64) -> AppSpec {
         let inputs = inputs_for(&mut next);
         let fallible = if with_errors && next() % 3 == 0 { Some(0) } else { None };
         bp.push(Reg::Comp { idx: comps.len() });
-        comps.push(CompSpec { kind, inputs, fallible, is_async, route: None, fw: vec![] });
+        comps.push(CompSpec { kind, inputs, fallible, is_async, route: None, fw: vec![], gens: vec![] });
     }
     let n_h = 1 + next() % 2;
     for h in 0..n_h {
@@ -1406,16 +1447,17 @@ pub fn build_stage_stress(raw: u64) -> AppSpec {
             is_async: next() % 2 == 0,
             route: Some(RouteSpec { methods: vec!["GET".into()], path: format!("/h{h}"), path_param_fields: vec![], bulk: false }),
             fw: vec![],
+            gens: vec![],
         });
         // sometimes more middlewares between the routes
         if h + 1 < n_h && next() % 2 == 0 {
             let kind = if next() % 2 == 0 { CompKind::Pre } else { CompKind::Post };
             let inputs = inputs_for(&mut next);
             bp.push(Reg::Comp { idx: comps.len() });
-            comps.push(CompSpec { kind, inputs, fallible: None, is_async: false, route: None, fw: vec![] });
+            comps.push(CompSpec { kind, inputs, fallible: None, is_async: false, route: None, fw: vec![], gens: vec![] });
         }
     }
-    AppSpec { types, n_errs: if with_errors { 1 } else { 0 }, comps, bp, note: "abiding (stage stress)".into() }
+    AppSpec { peel: false, types, n_errs: if with_errors { 1 } else { 0 }, comps, bp, note: "abiding (stage stress)".into() }
 }
 
 // ------------------------------------------------------------------------------------------
@@ -1474,7 +1516,8 @@ pub fn build_naming_stress(raw: u64) -> AppSpec {
             is_async: next() % 2 == 0,
             route: Some(RouteSpec { methods: vec!["GET".into()], path: format!("/h{h}"), path_param_fields: vec![], bulk: false }),
             fw: vec![],
+            gens: vec![],
         });
     }
-    AppSpec { types, n_errs, comps, bp, note: "abiding (naming stress)".into() }
+    AppSpec { peel: false, types, n_errs, comps, bp, note: "abiding (naming stress)".into() }
 }
